@@ -23,6 +23,7 @@ type BigV struct {
 	T       *Term
 	MaxBits int      // bv mode: upper bound on the bit length of the value
 	Max     *big.Int // bv mode: upper bound on the value (nil: 2^MaxBits - 1)
+	Min     *big.Int // sbv mode: lower bound (nil: 0)
 }
 
 func (b *BigV) max() *big.Int {
@@ -53,7 +54,15 @@ func (b *BigV) Merge(c *Ctx, g *Term, other Value) (Value, bool) {
 	if b.T.S.K == KInt {
 		return &BigV{T: c.Ite(g, b.T, x.T)}, true
 	}
-	return bigWithMax(c.Ite(g, b.T, x.T), m), true
+	r := bigWithMax(c.Ite(g, b.T, x.T), m)
+	if b.Min != nil || x.Min != nil {
+		lo := b.min()
+		if x.min().Cmp(lo) < 0 {
+			lo = x.min()
+		}
+		r.Min = lo
+	}
+	return r, true
 }
 
 func (ex *Exec) bigIsInt() bool { return ex.BigMode == "int" }
@@ -63,6 +72,9 @@ func (ex *Exec) bigConst(v *big.Int) *BigV {
 		return &BigV{T: ex.Ctx.Int(v)}
 	}
 	w := ex.bigW()
+	if ex.bigIsSigned() && v.BitLen() < w-1 {
+		return &BigV{T: ex.Ctx.BVBig(w, v), Min: new(big.Int).Set(v), Max: new(big.Int).Set(v), MaxBits: v.BitLen()}
+	}
 	if v.Sign() < 0 || v.BitLen() > w {
 		return &BigV{T: ex.Ctx.BVBig(w, v), MaxBits: 1 << 30}
 	}
@@ -169,6 +181,12 @@ func registerBigModels(ex *Exec) {
 		mx := new(big.Int).Sub(pow2(63), bigOne)
 		if r.lo >= 0 {
 			mx = big.NewInt(r.hi)
+		}
+		if w := ex.bigW(); w < 64 {
+			if mx.BitLen() >= w {
+				return nil, nil, unsupported("big.NewInt: value may not fit the %d-bit model", w)
+			}
+			return ex.newBig(s, bigWithMax(ex.Ctx.Extract(t, w-1, 0), mx)), nil, nil
 		}
 		return ex.newBig(s, bigWithMax(ex.Ctx.ZExt(t, ex.bigW()), mx)), nil, nil
 	}
